@@ -159,6 +159,12 @@ RICH = {
 }
 
 
+# declarations without initialiser, typed and untyped, read before / after / without assignment, in bindings and handlers
+DECLS = ["let s: QString; s", "let s: QString; return s", "let n: int; n", "let b: bool; return b", "let s: QString; if (chk.checked) { s = \"x\" } return s",
+         "let s: QString = \"i\"; s", "let n: int = 1; n + 1", "let s; s", "let s; return 1", "const c: int = 2; c", "const c: int; c", "let p: QWidget; p", "let p: QLabel = a; p",
+         "let n: int; n = 1; n", "let x: Nope; x", "let n: int = \"s\"; n", "let a: int; a", "let chk: bool; chk", "let n: int, m: int; n + m", "let n: int, m = 2; m"]
+
+
 def comments_everywhere(text):
     """a comment at every token boundary: comments must never matter"""
     toks = TOKEN.findall(text)
@@ -273,6 +279,10 @@ def run(chk):
     for k in (["kind:root handler", "wide:warnings"] if quick else ["kind:root handler", "wide:warnings", "wide:dynamic", "wide:const", "wide:errors"]):
         for m in comments_everywhere(base[k]):
             inputs.append(("comment in " + k, m, True))
+    for k, dcl in enumerate(DECLS):
+        for h in (0, 1):
+            inputs.append(("declaration %d@%d" % (k, h), (HOSTS[0] % ("{ %s }" % dcl)) if h == 0 else (HOSTS[1] % dcl), True))
+        inputs.append(("declaration %d@int" % k, HOSTS[0].replace("text:", "indent:") % ("{ %s }" % dcl), True))
     inputs += [("edge:self action", HEAD + "QMenu { actions: [menuAction()] }\n", True), ("edge:this action", HEAD + "QWidget { QMenu { actions: [this.menuAction()] } }\n", True),
                ("edge:this buddy", HEAD + "QWidget { QLabel { buddy: this } }\n", True)]
     inputs += [("edge:empty", "", True), ("edge:nul", "\x00", True), ("edge:bom", "﻿" + base["kind:nothing dynamic"], True), ("edge:only import", HEAD, True),
